@@ -35,9 +35,15 @@ def run(ctx):
         "changed (expected by the verifier or claimed by the proof), trace length / width / aux / metadata changed in the proof context "
         "=> must be rejected.  correspondence: honest proofs with ONE component perturbed after proving (OOD trace value, OOD constraint "
         "evaluation, queried trace value, queried constraint value, options expected/claimed, field modulus, pow nonce, an assertion "
-        "value, exemptions) through verify() with a recording coin vs the extracted decision function verify_model on the parsed proof "
+        "value, exemptions; for members with an auxiliary segment also an auxiliary OOD value and a queried auxiliary value) through "
+        "verify() with a recording coin vs the extracted decision function verify_model on the parsed proof "
         "and the recorded coin outputs: same failing check, and on acceptance the model's DEEP evaluations equal the FRI layer-0 "
-        "openings; valid_b vs is_valid on honest and corrupted traces; seed_of vs the recorded coin seed.  distinct = distinct case lines")
+        "openings.  The base proofs walk through a schedule of {no extension, quadratic, cubic} x {no auxiliary segment, 1..3 auxiliary "
+        "columns next to 3..5 main columns, ONE main column with 2..3 auxiliary columns}; the model runs over the base field resp. the "
+        "extension FOps of Model/PolynomExt.v and takes the coefficients in the order of the coin: auxiliary random elements, "
+        "transition (main, auxiliary), boundary (main, auxiliary), z, DEEP trace (main columns, then auxiliary columns CONTINUING the "
+        "index), DEEP constraint columns; valid_b vs is_valid on honest and corrupted traces; seed_of vs the recorded coin seed.  "
+        "distinct = distinct case lines")
     ctx.assumptions += [
         "the eps-soundness bound is NOT proved: no probability theory / random-oracle model in the installed libraries; rejection of an "
         "invalid trace is exercised, the deterministic structure behind it is proved",
@@ -46,9 +52,10 @@ def run(ctx):
         "Merkle authentication of openings (C10), proof-of-work and transcript (C04) and the FRI verdict (C05) are parameters of the "
         "model's decision function; in the correspondence they are computed with the library's public API (MerkleTree::verify_batch, "
         "coin log) resp. instantiated with the first FRI check (DEEP evaluations = layer-0 openings)",
-        "the model covers the main trace segment and FieldExtension::None; auxiliary segments and extension fields are covered by the "
-        "falsifier only",
-        "the field operations of the crate agree with Z/p on canonical residues (C07): the model runs on zp_ops p",
+        "the model covers main + auxiliary trace segment (no Lagrange-kernel column: falsifier only) and FieldExtension::{None, Quadratic, "
+        "Cubic}; opened main-segment values, periodic and main assertion polynomials enter the extension through E::from (applied by the driver)",
+        "the field operations of the crate agree with Z/p on canonical residues (C07) and the extension arithmetic with C08's model: the "
+        "model runs on zp_ops p and on quad_ops / cube_ops of Model/PolynomExt.v (Model/ExtField.v over the generated ExtensibleField bodies)",
     ]
     ctx.audit_sources()
     ctx.coq_build("C02")
@@ -74,11 +81,32 @@ def run(ctx):
         ctx.notes["correspondence_classes"] = kinds
         need = ["verify:honest->accept", "verify:ood-constraint-eval->ood", "verify:queried-trace-value->trace-query",
                 "verify:queried-constraint-value->cons-query", "verify:options-expected-other->options", "verify:field-modulus->field",
-                "verify:assertion-value->ood", "valid:honest->1", "valid:cell->0", "valid:cell->1", "seed:honest->" ]
+                "verify:assertion-value->ood", "valid:honest->1", "valid:cell->0", "valid:cell->1", "seed:honest->",
+                "verify:ood-aux-cur->ood", "verify:ood-aux-next->ood", "verify:queried-aux-value->trace-query"]
         missing = [k for k in need if not any(x.startswith(k) and v > 0 for x, v in kinds.items())]
         ctx.ob("corr-harness:release", rc == 0 and len(lines) >= 10 * n and not missing,
                f"rc={rc} lines={len(lines)} missing classes={missing}: {out[-200:]}")
-        ctx.correspondence("verifier-decision+validity+seed:release", lines, drv, timeout=900)
+        # coverage of the carrier / segment layout: ACCEPTED honest proofs (the DEEP evaluations of the model are compared with the
+        # layer-0 openings exactly there) per extension degree x auxiliary layout
+        cov = {}
+        for l in lines:
+            toks = l.split(" ")
+            if toks[0] != "verify" or "tag=honest" not in toks:
+                continue
+            kvs = dict(t.split("=", 1) for t in toks if "=" in t and not t.startswith("=>"))
+            res = l.split(" => ", 1)[1].split(" ")
+            if res[0] != "accept" or len(res) < 2 or res[1] == "-":
+                continue
+            aw, w = int(kvs.get("aw", "0"), 16), len(kvs.get("fam", "").split(";"))
+            layout = "no-aux" if aw == 0 else ("aux>main" if aw > w else "aux<=main")
+            key = f"ext{kvs.get('ext', '?')}:{layout}"
+            cov[key] = cov.get(key, 0) + 1
+        ctx.notes["correspondence_coverage_ext_x_aux"] = cov
+        want = [f"ext{e}:{a}" for e in (1, 2, 3) for a in ("no-aux", "aux<=main", "aux>main")]
+        thin = [k for k in want if cov.get(k, 0) < 1]
+        ctx.ob("corr-coverage:aux-segment(aux_width>=1, aux_width>main width) x extension degree(1,2,3) sampled with accepted honest proofs",
+               not thin, f"missing={thin} have={cov}")
+        ctx.correspondence("verifier-decision+validity+seed:release", lines, drv, timeout=900, shards=4)
         for sm in ctx.samples:  # case lines carry whole parsed proofs: keep the evidence readable
             for k in ("case", "impl", "model"):
                 if isinstance(sm.get(k), str) and len(sm[k]) > 900:
@@ -146,12 +174,17 @@ def run(ctx):
         "invalid_assertion_not_divisible (all three assertion kinds via asserted_roots_bnd), valid_iff_divisible, invalid_trace_not_divisible; "
         "exempt_corruption_harmless; trans_divisor_eval_spec ((x^n-1)/prod(x-e) = vanishing polynomial of the enforced steps, via "
         "xn_minus_one_factors) and bnd_divisor_eval_spec / bnd_divisor_eval_single (x^m - g^(a m) = vanishing polynomial of the named steps); "
-        "verify_accept_implies, verify_accept_iff, deep_evaluations_nth, deep_trace_at_spec, accept_gives_polynomial_relation; "
+        "verify_accept_implies, verify_accept_iff, deep_evaluations_nth, deep_trace_at_spec, accept_gives_polynomial_relation (all over main + "
+        "auxiliary segment); deep_coeff_index_aux_offset / _injective / _enumerates (main i -> i, aux j -> main_width + j: injective, exactly "
+        "0..w+aw-1), deep_trace_at_index_form, deep_ood_difference_linear + ood_delta_nth, deep_ood_binding_partial (a non-zero per-column "
+        "difference of OOD values is annihilated by at most |F|^(m-1) coefficient vectors), aliased_index_not_injective, "
+        "deep_binding_aliased_refuted (aux j -> j: opposite errors in main column 0 and aux column 0 give the same DEEP value for ALL coins); "
         "ood_reduce_is_evaluation, ood_counting_partial; ali_counting (at most |F|^(k-1) good coefficient vectors, for fixed polynomials), "
         "ali_counting_partial (subspace) and ali_fiber_unique_partial (one good coefficient per line); seed_binds_statement (+ its hypothesis "
         "for f64/f62/f128), flat_avals_inj; non-vacuity Examples over the 64-bit field (incl. an accepting and a rejecting run of verify_model)")
     ctx.notes["not_proved"] = (
         "the probabilistic soundness bound (statement kept as a comment in coq/Props/C02.v): no proximity-gap / list-decoding / random-oracle "
         "argument; the counting lemmas are for FIXED polynomials (divisibility), not for closeness to low-degree polynomials; that the prover's "
-        "numerators satisfy HN/HB (C09/C17/C20); boundary terms of accept_gives_polynomial_relation are kept in evaluation form; auxiliary "
-        "segment / extension fields in the executable model (falsifier only)")
+        "numerators satisfy HN/HB (C09/C17/C20); boundary terms of accept_gives_polynomial_relation are kept in evaluation form; the DEEP "
+        "binding is proved at ONE query position as linear algebra over the coefficient vector (deep_ood_binding_partial), not as a statement "
+        "about low-degree polynomials; the Lagrange-kernel column is not in the executable model (falsifier only)")
